@@ -33,8 +33,8 @@ func buildHeaderRequest(ctx context.Context, protocol uint32, blocks *storage.Bl
 		}
 	}
 
-	// Add block hashes in reverse order
-	for ; delta <= blocks.LastHeight(); delta *= 2 {
+	// Add block hashes in reverse order, doubling the distance from the tip each step.
+	for delta <= blocks.LastHeight() {
 		hash, err := blocks.Hash(ctx, blocks.LastHeight()-delta)
 		if err != nil {
 			return getheaders, err
@@ -46,6 +46,20 @@ func buildHeaderRequest(ctx context.Context, protocol uint32, blocks *storage.Bl
 		if blocks.LastHeight() <= delta {
 			break
 		}
+		if delta == 0 {
+			delta = 1 // zero never grows by doubling and would only repeat the tip
+		} else {
+			delta *= 2
+		}
+	}
+
+	if len(getheaders.BlockLocatorHashes) == 0 {
+		// The chain is shorter than delta. Locate from the first block.
+		hash, err := blocks.Hash(ctx, 0)
+		if err != nil {
+			return getheaders, err
+		}
+		getheaders.AddBlockLocatorHash(hash)
 	}
 
 	return getheaders, nil
